@@ -6,6 +6,9 @@
 #include <symengine/dict.h>
 #include <symengine/mul.h>
 
+#include <symengine/printers/strprinter.h>
+#include <sstream>
+
 namespace verif_positive
 {
 // R40.4: a non-owning reference obtained through an iterator, used after the
@@ -20,4 +23,17 @@ int use_after_erase(SymEngine::map_basic_basic &d,
     d.erase(it);
     return static_cast<int>(b.hash() & 1);
 }
+
+// R44.10: an operand written next to an infix operator with a bare apply()
+class BarePowPrinter : public SymEngine::StrPrinter
+{
+public:
+    void _print_pow(std::ostringstream &o,
+                    const SymEngine::RCP<const SymEngine::Basic> &a,
+                    const SymEngine::RCP<const SymEngine::Basic> &b) override
+    {
+        o << parenthesizeLE(a, SymEngine::PrecedenceEnum::Pow) << "^"
+          << apply(b);
+    }
+};
 } // namespace verif_positive
